@@ -1,8 +1,37 @@
-//! C20 – the chain-sync client keeps listeners on one consistent chain at the best tip.
+//! C20 - the chain-sync client keeps listeners on one consistent chain at the best tip.
 //!
-//! Bounded exhaustive enumeration of block trees x tip sequences x listener positions x source
-//! faults against the real `lightning_block_sync::{SpvClient, poll::ChainPoller,
-//! init::synchronize_listeners}`; a recording `chain::Listen` is replayed against the tree.
+//! Bounded exhaustive enumeration against the real `lightning_block_sync::{SpvClient,
+//! poll::ChainPoller, init::synchronize_listeners}` (no tokio: the mock source returns ready
+//! futures, driven by a hand-written `block_on`):
+//!
+//! * **trees**   every rooted block tree with <= N non-genesis blocks (regtest-difficulty headers
+//!               mined by the harness; equal-height branches = equal-work ties), x every sequence
+//!               of <= T successive best tips (any node), x every listener start node, x source
+//!               mode (full blocks / header-only / mixed), x {fresh `HeaderCache`, cache+tip handed
+//!               over by `synchronize_listeners`}; for `synchronize_listeners` two listeners on
+//!               every ordered pair of nodes x every best tip x `BlockLocator` with / without
+//!               `previous_blocks` x source with / without pruned stale branches.
+//! * **faults**  for every run, one fault at every source request (every applicable class, see
+//!               `source::FaultClass`); fault pairs on the smallest trees.
+//! * **weights** trees whose blocks have different difficulty, so work and height disagree
+//!               (shorter-but-heavier chains win; reorgs to a lower height).
+//! * **evict**   fork depth = HEADER_CACHE_LIMIT - 1, =, + 1 (+3) on a 1014-block chain.
+//! * **batch**   start-up sync over chains just below / above the 36-block fetch batches.
+//!
+//! Oracle (`run.rs`): a recording `chain::Listen` is replayed against the tree. Every
+//! `blocks_disconnected(fork)` must name a proper ancestor of the listener's tip (right height),
+//! every connected block must be a valid tree block whose parent is the listener's tip, at its true
+//! height, with the data the source serves; no disconnect after a connect within a call. An
+//! error-free poll must report Common / Better / Worse exactly as the true accumulated work says,
+//! leave the listener at the reported better tip via the fork point (the LCA), or untouched. A
+//! poll during which a fault fired may do anything consistent; two error-free recovery polls must
+//! then reach the best tip without a skipped or repeated block. `synchronize_listeners` is judged
+//! on the notifications alone when it fails and on "all listeners at the common tip" when it
+//! succeeds. Invalid (fabricated) blocks must never reach a listener. A panic is a violation.
+//!
+//! `--opt lies=1` additionally injects false height / chainwork claims next to a correct header.
+//! They are outside the property's fault list (the header itself hashes, connects and carries
+//! valid work) and are off by default.
 mod run;
 mod source;
 mod tree;
@@ -25,9 +54,11 @@ const LIMIT: usize = lightning_block_sync::HEADER_CACHE_LIMIT as usize;
 enum Positions {
 	/// A fault at every request of the scripted steps.
 	All,
-	/// Long parametric runs in the quick tier: requests near step/phase boundaries and every
-	/// request that reveals a header-cache miss.
+	/// Long parametric runs: requests near step/phase boundaries and every request that reveals a
+	/// header-cache miss.
 	Sparse,
+	/// `Sparse` plus every request of the last scripted step (the deep reorg).
+	LastStep,
 }
 
 #[derive(Clone, Debug)]
@@ -282,7 +313,8 @@ fn run_one(
 fn fault_positions(log: &[Req], positions: Positions, main: Option<usize>) -> Vec<usize> {
 	match positions {
 		Positions::All => (0..log.len()).collect(),
-		Positions::Sparse => {
+		Positions::Sparse | Positions::LastStep => {
+			let last_step = log.iter().map(|r| r.step).max().unwrap_or(0);
 			let mut keep = vec![false; log.len()];
 			for i in 0..log.len() {
 				let boundary = |j: usize| j >= log.len() || log[j].step != log[i].step || log[j].kind != log[i].kind;
@@ -293,7 +325,7 @@ fn fault_positions(log: &[Req], positions: Positions, main: Option<usize>) -> Ve
 					Some(m) => log[i].kind == REQ_HEADER && log[i].step > 1 && log[i].node >= 0 && (log[i].node as usize) <= m,
 					None => false,
 				};
-				keep[i] = near || miss;
+				keep[i] = near || miss || (positions == Positions::LastStep && log[i].step == last_step);
 			}
 			(0..log.len()).filter(|i| keep[*i]).collect()
 		},
@@ -626,7 +658,7 @@ fn build_items(ph: &Phase, phase: usize, lies: bool) -> Vec<Item> {
 					via_init,
 					start: 0,
 					gen: Gen::SpvFixed { tips: vec![main, fork_tip] },
-					positions: if ph.evict_all_positions { Positions::All } else { Positions::Sparse },
+					positions: if ph.evict_all_positions && (d == LIMIT || d == LIMIT + 1) { Positions::LastStep } else { Positions::Sparse },
 					..proto.clone()
 				});
 			}
@@ -754,6 +786,18 @@ fn main() {
 	let capped = acc.incomplete_items > 0;
 	let wall = started.elapsed().as_secs_f64();
 
+	// A two-fault group whose oracle also fires with one of the two fault classes alone is the same
+	// defect reached through a longer path: fold it into the single-fault group (counts are kept).
+	let pair_keys: Vec<String> = acc.groups.keys().filter(|k| k.rsplit('|').next().map_or(false, |c| c.contains('+'))).cloned().collect();
+	for k in pair_keys {
+		let (what, classes) = k.rsplit_once('|').unwrap();
+		let target = classes.split('+').map(|c| format!("{}|{}", what, c)).find(|t| acc.groups.contains_key(t));
+		if let Some(t) = target {
+			let g = acc.groups.remove(&k).unwrap();
+			acc.groups.get_mut(&t).unwrap().3 += g.3;
+		}
+	}
+
 	// Every reported violation must reproduce, twice, on a plain sequential run.
 	for (key, (_, scn, f, count)) in &acc.groups {
 		eprintln!("violation group {} x{}", key, count);
@@ -811,7 +855,7 @@ fn main() {
 				"weighted_trees_blocks_lo_hi_tips_hi": p.weights.map(|x| vec![x.0, x.1, x.2]),
 				"evict_fork_depths": p.evict_depths,
 				"evict_modes": p.evict_modes.iter().map(|m| m.name()).collect::<Vec<_>>(),
-				"evict_fault_positions": if p.evict_all_positions { "every request" } else { "requests near step/phase boundaries and every cache-miss request" },
+				"evict_fault_positions": if p.evict_all_positions { "depth = limit, limit+1: every request of the reorg poll; otherwise boundaries + cache misses" } else { "requests near step/phase boundaries and every cache-miss request" },
 				"batch_chain_lengths": p.batch_lens,
 				"work_items": n_items,
 				"work_items_cut_by_cap": inc,
